@@ -296,7 +296,8 @@ func (in *Interp) chanSend(ch *ChanObj, v Value) *iPanic {
 	if ch.Closed {
 		return in.mkPanic("chan", "send on closed channel")
 	}
-	if len(ch.Buf) < ch.Cap {
+	if len(ch.Buf) < ch.Cap || (ch.Cap == 0 && ch.RecvWaiting && len(ch.Buf) == 0) {
+		// (an unbuffered send succeeds when the receiver is the goroutine currently parked in the idle hook)
 		ch.Buf = append(ch.Buf, v)
 		return nil
 	}
@@ -320,6 +321,16 @@ func (in *Interp) chanRecv(ch *ChanObj, t types.Type, commaOk bool) (Value, *sym
 	if ch.Nondet != "" && in.eventBudget > 0 {
 		in.eventBudget--
 		return in.zero(et), in.B.True, nil
+	}
+	// the other goroutines (played by the harness' idle hook) may send now
+	ch.RecvWaiting = true
+	ok := in.idleHook()
+	ch.RecvWaiting = false
+	if ok {
+		in.eventBudget-- // (the hook grants an event for select loops; a plain receive does not need it)
+		if len(ch.Buf) > 0 || ch.Closed {
+			return in.chanRecv(ch, t, commaOk)
+		}
 	}
 	in.blocked("receive from empty channel")
 	return nil, nil, nil
